@@ -72,6 +72,7 @@ def actor_fn(world, kind, idx, results):
         sch = {"A": make_schema(A_FIELDS), "B": make_schema(B_FIELDS, 2), "none": None}[kind.split("_")[1]]
         t = datashard.create_table(loc, sch)
         rec["handle"] = t
+        rec["uuid_at_return"] = uuid_of(t)  # from here on the table exists: its identity must never change
         if "append" in kind:
             arg = None
             r = list(rows)
@@ -174,6 +175,8 @@ def run_case(case):
                         if "No Iceberg table" not in rec.get("load_error", ""):
                             out["violations"].append(("load-error-kind", f"load_table raised {rec.get('load_error')}"))
                         continue
+                if rec.get("uuid_at_return") not in (None, the_uuid):
+                    out["violations"].append(("identity-replaced-after-create-returned", f"actor {i} ({kind}) saw table uuid {rec['uuid_at_return']} when create_table returned; the table is now {the_uuid}"))
                 if h is not None:
                     md = h.metadata_manager.refresh()
                     if md is None or md.table_uuid != the_uuid:
